@@ -258,11 +258,13 @@ PROPS = {
             {"test": "TestC08Path", "checks": 60000, "shards": 4},
             {"test": "TestC08Hetero", "checks": 20000, "shards": 2},
             {"test": "TestC08Shadowing", "kind": "plain"},
+            {"test": "TestC08Shadow", "checks": 8000, "shards": 2},
         ],
         "thorough": [
             {"test": "TestC08Path", "checks": 3200000, "shards": 12},
             {"test": "TestC08Hetero", "checks": 800000, "shards": 4},
             {"test": "TestC08Shadowing", "kind": "plain"},
+            {"test": "TestC08Shadow", "checks": 200000, "shards": 4},
         ],
         "assumptions": [
             "not asserted (neither the statement nor a fixture fixes it; such paths are discarded and counted): indexing a string, .N on a map, string subscripts on sequences, pointer-receiver methods on a nil pointer, results of *Value-returning methods",
